@@ -148,7 +148,7 @@ def compression_value(e, comp, zstd_documented_range=True):
     return Adt("CompressionWithLevel", comp.capitalize(), [Int(lv, "i32" if comp == "zstd" else "u32")])
 
 
-def c11_repro(ctx, owners, sym_owner_chars=0, dests=None, late_source_date=False):
+def c11_repro(ctx, owners, sym_owner_chars=0, dests=None, late_source_date=False, extra=""):
     """owners: one (user, group) pair of literal names per file.  Two runs of the same configuration = the same inputs under two independent
     environments (clock readings, hash-set iteration orders): the written bytes must be equal; and no time stamp exceeds the source date."""
     ex = Exec(ctx.funcs, intrinsics.I, max_steps=4000000)
@@ -156,7 +156,10 @@ def c11_repro(ctx, owners, sym_owner_chars=0, dests=None, late_source_date=False
     ctx.bounds = ("PackageBuilder::new .. build() from MIR with %d file(s) owned by %s, one symbolic content byte and a symbolic modification time each, symbolic source date, no compression; "
                   "environment = clock readings (arbitrary but not before the source date, fresh per call) and HashSet iteration order (arbitrary permutation per iteration)" % (len(owners), ", ".join("%s:%s" % (u.decode(), g.decode()) for u, g in owners)))
     runs = []
-    shape = dict(dests=[d.decode() for d in dests] if dests else [], late=bool(late_source_date))
+    shape = dict(dests=[d.decode() for d in dests] if dests else [], late=bool(late_source_date), extra=extra)
+    if extra:
+        ctx.bounds += {"host": "; .build_host(\"h\") set, no cookie", "duprec": "; .recommends(Dependency::user(<the first file's owner>)) given explicitly as well",
+                       "hostcookie": "; .build_host(\"h\") and .cookie(\"c\") set"}[extra]
 
     def setup(e):
         d = dict(sd=z3.BitVec("source_date", 32), mt=[z3.BitVec("mtime_%d" % i, 32) for i in range(len(owners))], c=[z3.BitVec("content_%d" % i, 8) for i in range(len(owners))])
@@ -168,7 +171,14 @@ def c11_repro(ctx, owners, sym_owner_chars=0, dests=None, late_source_date=False
     def body(e, inp):
         own = inp.get("own") or owners
         files = [((dests[i] if dests else b"/d/f%d" % i), u, g, [inp["c"][i]], inp["mt"][i]) for i, (u, g) in enumerate(own)]
-        r = build_package(ctx, e, files, source_date=inp["sd"], late_source_date=late_source_date)
+        setters = []
+        if extra in ("host", "hostcookie"):
+            setters.append(("build_host", [string(b"h")]))
+        if extra == "hostcookie":
+            setters.append(("cookie", [string(b"c")]))
+        if extra == "duprec":
+            setters.append(("recommends", [e.call_fn(ctx.impl_fn("user", None, "Dependency"), [string(own[0][0])])]))
+        r = build_package(ctx, e, files, source_date=inp["sd"], late_source_date=late_source_date, setters=setters)
         if r.variant != "Ok":
             return r, None, None
         pkg = r.fields[0]
@@ -281,6 +291,9 @@ HARNESSES["c11_repro_dirs2"] = lambda ctx: c11_repro(ctx, [(b"root", b"root"), (
 HARNESSES["c11_repro_dirs3"] = lambda ctx: c11_repro(ctx, [(b"root", b"root"), (b"a", b"g"), (b"root", b"root")], dests=[b"/d/f0", b"/e/f1", b"/c/x/f2"])
 HARNESSES["c11_repro_late_sd"] = lambda ctx: c11_repro(ctx, [(b"root", b"root"), (b"a", b"g")], late_source_date=True)
 HARNESSES["c11_repro_user3"] = lambda ctx: c11_repro(ctx, [(b"a", b"g"), (b"b", b"h"), (b"c", b"g")])
+HARNESSES["c11_repro_host"] = lambda ctx: c11_repro(ctx, [(b"root", b"root")], extra="host")
+HARNESSES["c11_repro_hostcookie"] = lambda ctx: c11_repro(ctx, [(b"root", b"root")], extra="hostcookie")
+HARNESSES["c11_repro_duprec"] = lambda ctx: c11_repro(ctx, [(b"a", b"g"), (b"b", b"h")], extra="duprec")
 HARNESSES["c11_repro_sym2"] = lambda ctx: c11_repro(ctx, [(b"?", b"?"), (b"?", b"?")], sym_owner_chars=1)
 
 
@@ -289,7 +302,7 @@ def replay_c11(ctx, fl):
         ans = ctx.native.ask("sign_time")
         return ans.startswith("late") or ans.startswith("panic"), "real crate: build_and_sign with a recording signer and source date 1600000000 -> " + ans
     owners = ",".join("%s:%s" % (u, g) for u, g in fl.get("owners", []))
-    ans = ctx.native.ask("repro", owners or "-", ",".join(fl.get("dests") or []) or "-", "late" if fl.get("late") else "early")
+    ans = ctx.native.ask("repro", owners or "-", ",".join(fl.get("dests") or []) or "-", "late" if fl.get("late") else "early", fl.get("extra") or "-")
     if fl.get("kind") == "c11panic":
         return ans.startswith("panic"), "real crate: " + ans
     if fl.get("kind") == "c11clamp":
@@ -819,11 +832,13 @@ HARNESSES["c06_files_2"] = lambda ctx: c06_files(ctx, 2)
 # ---------------------------------------------------------------------------------------------------------
 # C07 (partial): Package::files() of a package built by this library yields every file's exact content under its own metadata
 # ---------------------------------------------------------------------------------------------------------
-def c07_roundtrip(ctx, sizes, comp="none"):
+def c07_roundtrip(ctx, sizes, comp="none", variant=""):
     ex = Exec(ctx.funcs, intrinsics.I, max_steps=8000000)
     ctx.stats = ex.stats
-    ctx.bounds = ("files of %s symbolic content bytes at /d/f<i> (in that order of insertion: reversed), compression %s: PackageBuilder .. build() then Package::files() and FileIterator::next, all from MIR "
-                  "(cpio writer and cpio reader included)" % ("/".join(map(str, sizes)), comp if comp == "none" else comp + " (compressor = uninterpreted function of level and input, decompressor = its inverse)"))
+    stem = "/d/\u00e9".encode() if variant == "utf8" else b"/d/f"      # utf8: a two-byte character in the base name (byte length != character count)
+    ctx.bounds = ("files of %s symbolic content bytes at %s<i> (in that order of insertion: reversed)%s, compression %s: PackageBuilder .. build() then Package::files() and FileIterator::next, all from MIR "
+                  "(cpio writer and cpio reader included)" % ("/".join(map(str, sizes)), stem.decode(), "; the first file carries the %ghost flag" if variant == "ghost" else "",
+                                                              comp if comp == "none" else comp + " (compressor = uninterpreted function of level and input, decompressor = its inverse)"))
     from intrinsics2 import uf_digest
     from harnesses_pkg import hexchars
 
@@ -836,7 +851,8 @@ def c07_roundtrip(ctx, sizes, comp="none"):
         b = e.call_fn(ctx.impl_fn("compression", None, "PackageBuilder"), [b, compression_value(e, comp)])
         cell = Cell(b)
         for i in reversed(range(len(sizes))):
-            r = e.call_fn(ctx.impl_fn("add_data", None, "PackageBuilder"), [Ref(cell), VecV([Int(x, "u8") for x in inp[i]]), Adt("Timestamp", "Timestamp", [Int(5, "u32")]), file_options(b"/d/f%d" % i)])
+            r = e.call_fn(ctx.impl_fn("add_data", None, "PackageBuilder"), [Ref(cell), VecV([Int(x, "u8") for x in inp[i]]), Adt("Timestamp", "Timestamp", [Int(5, "u32")]),
+                                                                                file_options(stem + b"%d" % i, flags=(1 << 6) if variant == "ghost" and i == 0 else 0)])
             assert r.variant == "Ok"
         r = e.call_fn(ctx.impl_fn("build", None, "PackageBuilder"), [cell.v])
         if r.variant != "Ok":
@@ -858,14 +874,14 @@ def c07_roundtrip(ctx, sizes, comp="none"):
     def on_path(e, inp, out):
         k, v = out
         if k != "return":
-            ctx.fail("building or iterating panics: %s" % (v,), "Package::files", kind="c07", sizes=list(sizes))
+            ctx.fail("building or iterating panics: %s" % (v,), "Package::files", kind="c07", sizes=list(sizes), comp=comp, variant=variant)
             return
         r, it, outs = v
         ctx.cover("package built", r.variant == "Ok")
         if r.variant != "Ok":
             return
         if it.variant != "Ok" or len(outs) != len(sizes) or any(o.variant != "Ok" for o in outs):
-            ctx.fail("iterating the payload of a freshly built package fails or yields %d entries for %d files" % (len(outs), len(sizes)), "Package::files", kind="c07", sizes=list(sizes), comp=comp)
+            ctx.fail("iterating the payload of a freshly built package fails or yields %d entries for %d files" % (len(outs), len(sizes)), "Package::files", kind="c07", sizes=list(sizes), comp=comp, variant=variant)
             return
         for i, o in enumerate(outs):                      # ordered by path: /d/f0, /d/f1, ...
             rf = o.fields[0]
@@ -873,26 +889,29 @@ def c07_roundtrip(ctx, sizes, comp="none"):
             bad = None
             if len(content) != sizes[i] or (content and e._check(z3.Not(z3.And([x == y for x, y in zip(content, inp[i])])))):
                 bad = "content"
-            elif e._check(z3.Not(_eq_str(e, Str(intrinsics3._path_bytes(e, fe.fields[0])), Str.lit(b"/d/f%d" % i)))):
+            elif e._check(z3.Not(_eq_str(e, Str(intrinsics3._path_bytes(e, fe.fields[0])), Str.lit(stem + b"%d" % i)))):
                 bad = "path (order by path)"
             elif e._check(fe.fields[4].e != sizes[i]):
                 bad = "recorded size"
             elif fe.fields[6].variant != "Some" or e._check(z3.Not(_eq_str(e, fe.fields[6].fields[0].fields[0], Str(hexchars(uf_digest("sha256", list(inp[i]))))))):
                 bad = "recorded digest"
             if bad:
-                ctx.fail("payload iteration pairs entry %d with the wrong %s" % (i, bad), "Package::files", kind="c07", sizes=list(sizes), comp=comp)
+                ctx.fail("payload iteration pairs entry %d with the wrong %s" % (i, bad), "Package::files", kind="c07", sizes=list(sizes), comp=comp, variant=variant)
                 return
     ex.run_all(setup, body, on_path)
 
 
 def replay_c07(ctx, fl):
-    ans = ctx.native.ask("files_rt", ",".join(str(x) for x in fl.get("sizes", [])), fl.get("comp") or "none")
+    ans = ctx.native.ask("files_rt", ",".join(str(x) for x in fl.get("sizes", [])), fl.get("comp") or "none", fl.get("variant") or "plain")
     return not ans.startswith("same"), "real crate: files of those sizes built and iterated with Package::files() -> " + ans[:120]
 
 
 REPLAYERS["c07"] = replay_c07
 for _sz in ((0,), (1,), (3,), (4,), (5,), (2, 3), (4, 0), (1, 2, 3)):
     HARNESSES["c07_rt_" + "_".join(map(str, _sz))] = (lambda sz: (lambda ctx: c07_roundtrip(ctx, sz)))(_sz)
+HARNESSES["c07_rt_utf8_3_2"] = lambda ctx: c07_roundtrip(ctx, (3, 2), variant="utf8")
+HARNESSES["c07_rt_ghost_3_2"] = lambda ctx: c07_roundtrip(ctx, (3, 2), variant="ghost")
+HARNESSES["c07_rt_ghost_0_1"] = lambda ctx: c07_roundtrip(ctx, (0, 1), variant="ghost")
 for _cp in ("gzip", "xz", "bzip2", "zstd"):
     HARNESSES["c07_rt_%s_3_2" % _cp] = (lambda cp: (lambda ctx: c07_roundtrip(ctx, (3, 2), cp)))(_cp)
 
